@@ -399,13 +399,13 @@ def run_check(hname, tier, jobs=None, budget_s=None):
     for c in cands:
         if c.get("model") is None:
             continue
-        key = c["label"]
+        sk = sks[c["sk"]]
+        key = h.signature(c["label"], sk, c.get("detail")) if hasattr(h, "signature") else c["label"]
         if tried.get(key, 0) >= max_per_label:
             continue
-        if any(v["label"] == c["label"] for v in violations) and tried.get(key, 0) >= 1:
+        if any(v["signature"] == key for v in violations) and tried.get(key, 0) >= 1:
             continue
         tried[key] = tried.get(key, 0) + 1
-        sk = sks[c["sk"]]
         tag = hashlib.sha256(json.dumps([sk.get("id"), c["label"], c["model"]], sort_keys=True, default=repr)
                              .encode()).hexdigest()[:12]
         outdir = os.path.join(REPLAYS, pid, tag)
